@@ -36,7 +36,7 @@ theorem Seg.le {st : Store} (hs : StoreOK st) {t E : Int} {l : List OutMsg} (h :
   induction h with
   | nil t => exact Int.le_refl _
   | gap hw _ ih =>
-    obtain ⟨b, e, l, heq, hbe, _⟩ := wire_gap_inv hs hw rfl
+    obtain ⟨b, e, l', heq, hbe, _⟩ := wire_gap_inv hs hw rfl
     have h1 := congrArg OutMsg.seq heq
     have h2 := congrArg OutMsg.f heq
     simp only [gapFillL, gapFill, List.cons.injEq, Prod.mk.injEq, true_and, and_true] at h1 h2
